@@ -347,6 +347,10 @@ def run_real(spec):
     rng = core.rng_for("C02r", spec["tier"], spec["seed"], spec["spec"])
     for run in range(spec["runs"]):
         group = execnet.Group()
+        noise = core.worker_noise(rng.getrandbits(30), p=0.01, max_sleep_ms=3.0)
+        if run % 2:
+            noise.__enter__()
+            res.count("real_runs_with_worker_side_noise")
         try:
             if spec["spec"] == "popen":
                 gw = group.makegateway("popen")
@@ -405,6 +409,8 @@ def run_real(spec):
         except BaseException as e:
             res.violation(f"real-run-raised:{spec['spec']}:{type(e).__name__}", str(e)[-300:])
         finally:
+            if run % 2:
+                noise.__exit__()
             group.terminate(3.0)
     res.sample({"real": spec["spec"], "runs": spec["runs"]})
     return res
